@@ -31,6 +31,8 @@ type inliner struct {
 	p       *Prog
 	decls   map[types.Object]*ast.FuncDecl
 	pkgOf   map[types.Object]*types.Package
+	infoOf  map[types.Object]*types.Info
+	crossed map[*types.Info]map[types.Object]bool // callee info already imported into this host info
 	done    int
 	skipped int
 }
@@ -41,7 +43,7 @@ type inlRange struct {
 }
 
 func (p *Prog) inlineNewHelpers() {
-	in := &inliner{p: p, decls: map[types.Object]*ast.FuncDecl{}, pkgOf: map[types.Object]*types.Package{}}
+	in := &inliner{p: p, decls: map[types.Object]*ast.FuncDecl{}, pkgOf: map[types.Object]*types.Package{}, infoOf: map[types.Object]*types.Info{}, crossed: map[*types.Info]map[types.Object]bool{}}
 	for _, pk := range p.sortedMod() {
 		for _, f := range pk.Syntax {
 			for _, d := range f.Decls {
@@ -55,6 +57,7 @@ func (p *Prog) inlineNewHelpers() {
 				if o := pk.TypesInfo.Defs[fd.Name]; o != nil && in.inlinable(fd, pk.TypesInfo) {
 					in.decls[o] = fd
 					in.pkgOf[o] = pk.Types
+					in.infoOf[o] = pk.TypesInfo
 				}
 			}
 		}
@@ -146,14 +149,38 @@ func (in *inliner) host(info *types.Info, pkg *types.Package, host *ast.FuncDecl
 	hostObj := info.Defs[host.Name]
 	callee := func(call *ast.CallExpr) (*ast.FuncDecl, types.Object) {
 		o := staticCallee(info, call)
-		if o == nil || o == hostObj || in.pkgOf[o] != pkg {
+		if o == nil || o == hostObj {
 			return nil, nil
 		}
 		fd := in.decls[o]
 		if fd == nil || (usedHere[o] && os.Getenv("YAE_INL_ONCE") != "") {
 			return nil, nil
 		}
+		if in.pkgOf[o] != pkg {
+			// a new exported function of another package (four copies of one rendering merged into util.FmtNum): the rules
+			// resolve everything by object, so its body can stand in the caller like that of a same-package helper; the
+			// callee's type information is made available under the host's info first, and the copies' under the callee's
+			if fd.Recv != nil || !o.Exported() || in.infoOf[o] == nil {
+				return nil, nil
+			}
+			if in.crossed[info] == nil {
+				in.crossed[info] = map[types.Object]bool{}
+			}
+			if !in.crossed[info][o] {
+				copyInfo(info, in.infoOf[o], fd)
+				in.crossed[info][o] = true
+			}
+		}
 		return fd, o
+	}
+	// exported: entries of copied nodes are also recorded under the callee package's info (lookups by position land there)
+	back := func(o types.Object, stmts []ast.Stmt) {
+		if in.pkgOf[o] == pkg || in.infoOf[o] == nil {
+			return
+		}
+		for _, st := range stmts {
+			copyInfo(in.infoOf[o], info, st)
+		}
 	}
 	var rewriteList func(list []ast.Stmt) []ast.Stmt
 	rewriteList = func(list []ast.Stmt) []ast.Stmt {
@@ -165,6 +192,7 @@ func (in *inliner) host(info *types.Info, pkg *types.Package, host *ast.FuncDecl
 					if call, ok := unparen(x.Results[0]).(*ast.CallExpr); ok {
 						if fd, o := callee(call); fd != nil {
 							if blk := in.expandStmt(info, call, fd, "R"); blk != nil {
+								back(o, blk)
 								usedHere[o] = true
 								in.p.inlRanges = append(in.p.inlRanges, inlRange{fd.Body.Pos(), fd.Body.End(), host.Pos(), host.End()})
 								out = append(out, blk...)
@@ -180,6 +208,7 @@ func (in *inliner) host(info *types.Info, pkg *types.Package, host *ast.FuncDecl
 				if call := panicOnErr(info, x); call != nil {
 					if fd, o := callee(call); fd != nil {
 						if blk := in.expandPanicking(info, call, fd); blk != nil {
+							back(o, blk)
 							usedHere[o] = true
 							in.p.inlRanges = append(in.p.inlRanges, inlRange{fd.Body.Pos(), fd.Body.End(), host.Pos(), host.End()})
 							out = append(out, blk...)
@@ -192,6 +221,7 @@ func (in *inliner) host(info *types.Info, pkg *types.Package, host *ast.FuncDecl
 				if call, ok := unparen(x.X).(*ast.CallExpr); ok {
 					if fd, o := callee(call); fd != nil && (fd.Type.Results == nil || in.pureReturns(info, fd)) {
 						if blk := in.expandStmt(info, call, fd, "S"); blk != nil {
+							back(o, blk)
 							usedHere[o] = true
 							in.p.inlRanges = append(in.p.inlRanges, inlRange{fd.Body.Pos(), fd.Body.End(), host.Pos(), host.End()})
 							out = append(out, blk...)
@@ -205,6 +235,10 @@ func (in *inliner) host(info *types.Info, pkg *types.Package, host *ast.FuncDecl
 					if call, ok := unparen(x.Rhs[0]).(*ast.CallExpr); ok {
 						if fd, o := callee(call); fd != nil {
 							if pre, rets := in.expandAssign(info, call, fd); rets != nil && len(rets) == len(x.Lhs) {
+								back(o, pre)
+								for _, r := range rets {
+									back(o, []ast.Stmt{&ast.ExprStmt{X: r}})
+								}
 								usedHere[o] = true
 								in.p.inlRanges = append(in.p.inlRanges, inlRange{fd.Body.Pos(), fd.Body.End(), host.Pos(), host.End()})
 								out = append(out, pre...)
@@ -214,6 +248,7 @@ func (in *inliner) host(info *types.Info, pkg *types.Package, host *ast.FuncDecl
 								continue
 							}
 							if blk := in.expandAssignMulti(info, x, call, fd); blk != nil {
+								back(o, blk)
 								usedHere[o] = true
 								in.p.inlRanges = append(in.p.inlRanges, inlRange{fd.Body.Pos(), fd.Body.End(), host.Pos(), host.End()})
 								out = append(out, blk...)
@@ -1188,4 +1223,46 @@ func (in *inliner) dissolve() {
 		}
 	}
 	sort.Strings(p.Dissolved)
+}
+
+
+// copyInfo copies the types.Info entries of every node under root from src to dst (where dst has none).
+func copyInfo(dst, src *types.Info, root ast.Node) {
+	ast.Inspect(root, func(x ast.Node) bool {
+		if x == nil {
+			return true
+		}
+		switch n := x.(type) {
+		case *ast.Ident:
+			if o, ok := src.Uses[n]; ok {
+				if _, has := dst.Uses[n]; !has {
+					dst.Uses[n] = o
+				}
+			}
+			if o, ok := src.Defs[n]; ok {
+				if _, has := dst.Defs[n]; !has {
+					dst.Defs[n] = o
+				}
+			}
+		case *ast.SelectorExpr:
+			if sl, ok := src.Selections[n]; ok {
+				if _, has := dst.Selections[n]; !has {
+					dst.Selections[n] = sl
+				}
+			}
+		}
+		if e, ok := x.(ast.Expr); ok {
+			if tv, ok := src.Types[e]; ok {
+				if _, has := dst.Types[e]; !has {
+					dst.Types[e] = tv
+				}
+			}
+		}
+		if o, ok := src.Implicits[x]; ok {
+			if _, has := dst.Implicits[x]; !has {
+				dst.Implicits[x] = o
+			}
+		}
+		return true
+	})
 }
